@@ -91,9 +91,21 @@ def check_export(rep, d):
     if m.shape != want.shape or not numpy.allclose(m, want, atol=1e-9):
         rep.fail('C17:export.matrix', 'pyzx.tensorfy of the exported graph differs from the matrix the diagram denotes', r)
         return
-    back = common.outcome(zx.Diagram.from_pyzx, adapters.OldGraph(real))
+    handed = adapters.OldGraph(real)
+    decl = (list(handed.inputs), list(handed.outputs))
+    back = common.outcome(zx.Diagram.from_pyzx, handed)
     if back[0] != 'ok':
         rep.fail('C17:import.raises', 'from_pyzx(to_pyzx(d)) raised %r' % (back[1],), r)
+        return
+    # the import reads the graph: the graph still declares the same inputs and outputs afterwards, still denotes the same
+    # matrix, and importing it a second time gives the same diagram
+    if (list(handed.inputs), list(handed.outputs)) != decl:
+        rep.fail('C17:import.keeps_graph', 'after from_pyzx the graph declares inputs %r / outputs %r, before %r / %r' % (
+            handed.inputs, handed.outputs, decl[0], decl[1]), r)
+        return
+    again = common.outcome(zx.Diagram.from_pyzx, handed)
+    if again[0] != 'ok' or again[1] != back[1]:
+        rep.fail('C17:import.twice', 'importing the same graph a second time gave %r' % (again[1] if again[0] != 'ok' else 'another diagram',), r)
         return
     b = back[1]
     why = common.wf_reason(b)
